@@ -511,6 +511,130 @@ def mutators(chk, prog, rule='R5'):
 
 # ====================================================================== iteration order (R6)
 
+def entry_points(chk, prog, rule='R6'):
+    """begin()/cbegin() start at the FIRST set position, rbegin()/crbegin() at the LAST one (or at the end marker
+    when no bit is set): every overload is executed symbolically (Engine C, bit-level model of the vector) with
+    forward()/reverse() of the iterator base replaced by the contract proved above (from position c they move to
+    the next set position beyond c, everything in between is clear; nothing happens at the end marker).  On every
+    path the candidates examined must start at position 0 resp. size() - 1: either that position was tested and is
+    set (no search), or it was tested and is clear / does not exist and the search starts from it, or the search
+    starts from the position in front of it."""
+    from .. import bits
+    from ..bits import region_of
+    cfg = {'inline': ('celma::container::',), 'inline_depth': 4, 'track_content': True, 'models': dict(bits.MODELS)}
+    eng = Engine(prog, cfg)
+    T = 'this.mData'
+    reg = region_of(T)
+
+    def scan_model(up):
+        def model(eng_, n_, st, func, want):
+            objn, _args = eng_.args_of(n_)
+            out = []
+            for ov, s1 in (eng_.ev(objn, st, func) if objn is not None else [(Obj('this', 'this'), st)]):
+                if not isinstance(ov, Obj):
+                    return None
+                cur = s1.fields.get((ov.name, 'mCurrPos'))
+                # (inside an inlined constructor the names of the iterator and of the bitset are exchanged: the
+                # bitset is whatever the iterator points to)
+                bso = s1.fields.get((ov.name, 'mpDynBitset'))
+                vec = s1.fields.get((bso.name, 'mData')) if isinstance(bso, Obj) else None
+                size = s1.fields.get((vec.name, 'size')) if isinstance(vec, Obj) else None
+                if not isinstance(cur, Lin) or not isinstance(size, Lin):
+                    return None
+                s1.ghost.append(('scan', 'up' if up else 'down', cur))
+                # at the end marker (or outside the range) nothing happens
+                idle = s1.copy()
+                if up:
+                    # static_cast< size_t>( cur) >= size: cur >= size or cur < 0
+                    for extra in ([ge(cur, size)], [le(cur, -1)]):
+                        i2 = idle.copy()
+                        i2.assume(*extra)
+                        if i2.ok():
+                            out.append((UNKNOWN, i2))
+                    s1.assume(ge(cur, 0), lt(cur, size))
+                else:
+                    idle.assume(le(cur, -1))
+                    if idle.ok():
+                        out.append((UNKNOWN, idle))
+                    s1.assume(ge(cur, 0))
+                if s1.ok():
+                    p = eng_.fresh('found', s1, 'long')
+                    if up:
+                        s1.assume(ge(p, cur + 1), le(p, size))
+                    else:
+                        s1.assume(le(p, cur - 1), ge(p, -1))
+                    s1.fields[(ov.name, 'mCurrPos')] = p
+                    out.append((UNKNOWN, s1))
+            return out
+        return model
+
+    for g in prog.functions:
+        if (g.classq or '').endswith('DynamicBitsetIteratorBase') and g.short in ('forward', 'reverse'):
+            eng.cfg['models'][g.name] = scan_model(g.short == 'forward')
+    members = [f for f in prog.functions if f.classq == CLS and f.short in ('begin', 'cbegin', 'rbegin', 'crbegin')
+               and f.body is not None]
+    chk.require(len(members) >= 6, 'begin()/rbegin() overloads of DynamicBitset found: %d' % len(members))
+    for f in sorted(members, key=lambda x: (x.line, x.key)):
+        up = f.short in ('begin', 'cbegin')
+        tag = '%s()%s' % (f.short, ' const' if f.d.get('const') else '')
+
+        def setup(e, st, func):
+            st.fields[('this', 'mData')] = Obj(T, 'std::vector<bool>')
+            n = bits.vec_size(e, st, T)
+            st.assume(le(n, (1 << 62)))
+        mark = len(eng.obligations)
+        finals = eng.analyse(f, setup)
+        del eng.obligations[mark:]
+        n = Lin.sym('%s.size()' % T)
+        first = lin(0) if up else n - 1
+        got = 0
+        for s in finals:
+            if s.status == 'throw':
+                chk.check(False, rule, f.name, '%s does not throw' % tag, f.loc(), '; '.join(s.trail[-5:]))
+                continue
+            if s.status not in ('normal', 'return'):
+                continue
+            r = s.ret
+            pos = s.fields.get((r.name, 'mCurrPos')) if isinstance(r, Obj) else None
+            if not isinstance(pos, Lin):
+                chk.check(False, rule, f.name, 'the position of the iterator returned by %s is tracked' % tag, f.loc(),
+                          repr(r))
+                continue
+            got += 1
+            scans = [x for x in s.ghost if x[0] == 'scan']
+
+            def same(a, b):
+                return entails(s.cons, ge(a, b)) and entails(s.cons, le(a, b))
+
+            def fact_at(where, value):
+                return any(x[0] == 'bitfact' and x[1][0] == 'r' and x[1][1] == reg and same(x[1][2], where) and
+                           x[2] is value for x in s.ghost)
+
+            def outside(c):
+                return entails(s.cons, ge(c, n)) or entails(s.cons, le(c, -1))
+            why = ''
+            if not scans:
+                ok = same(pos, first) and (fact_at(pos, True) or outside(pos))
+                if not ok:
+                    why = 'no search and the iterator stands at %r (first candidate %r)' % (pos, first)
+            elif len(scans) == 1 and scans[0][1] == ('up' if up else 'down'):
+                c = scans[0][2]
+                before = c + 1 if up else c - 1
+                ok = same(before, first) or (same(c, first) and (fact_at(c, False) or outside(c)))
+                if not ok:
+                    why = 'the search starts from %r: the first position examined is %r, not %r' % (c, before, first) \
+                        if not same(c, first) else 'the search starts from %r although that position was not found ' \
+                        'clear (a set bit there is skipped)' % (c,)
+            else:
+                ok = False
+                why = 'searches: %s' % [(x[1], x[2]) for x in scans]
+            chk.check(ok, rule, f.name, '%s starts at the %s set position: the candidates examined begin at position %s'
+                      % (tag, 'first' if up else 'last', '0' if up else 'size() - 1'), f.loc(),
+                      why + ('; path [%s]' % '; '.join(s.trail[-5:]) if why else ''))
+        chk.require(got >= 1, '%s: no path returns an iterator' % tag)
+
+
+
 def iteration_order(chk, prog, rule='R6'):
     """C12-R6: forward()/reverse() of the iterator base move to the NEXT set position (ascending resp. descending)
     or to the end marker - decided as a linear-search proof on the skip loop: every step tests exactly the
@@ -601,6 +725,7 @@ def iteration_order(chk, prog, rule='R6'):
                               f.loc(cond), 'stops at %r: at end %s, inside %s, bit facts %s' % (
                                   p1, at_end, inside, [g[2] for g in facts]))
         del eng.obligations[mark:]
+    entry_points(chk, prog, rule)
     # operator++ / operator-- are defined through forward() / reverse()
     table = {('DynamicBitsetIterator', 'operator++'): 'forward', ('DynamicBitsetIterator', 'operator--'): 'reverse',
              ('DynamicBitsetReverseIterator', 'operator++'): 'reverse',
